@@ -109,9 +109,10 @@ def readAddrs (big w64 : Bool) : Nat → Str → List Nat × Str
     | some (a, b') => let (as, b'') := readAddrs big w64 n b'; (a :: as, b'')
     | none => let (as, b'') := readAddrs big w64 n []; (0 :: as, b'')
 
-/-- `parseCPUSamples` (adjust = true); fuel bounds the number of records. Returns the samples
-and the bytes after the end marker. -/
-def cpuSamplesLoop (big w64 : Bool) (period : Nat) : Nat → Str → List RawSample → Outcome (List RawSample × Str)
+/-- `parseCPUSamples`; `mk count addrs` builds the sample of one record (`cpuSample period` for
+adjust = true, the C++ flavour; `javaCpuSample period` for adjust = false); fuel bounds the
+number of records. Returns the samples and the bytes after the end marker. -/
+def cpuSamplesLoop (big w64 : Bool) (mk : Nat → List Nat → RawSample) : Nat → Str → List RawSample → Outcome (List RawSample × Str)
   | 0, _, _ => .err "out of fuel"
   | f+1, b, acc =>
     if b.isEmpty then .ok (acc.reverse, b) else
@@ -124,7 +125,7 @@ def cpuSamplesLoop (big w64 : Bool) (period : Nat) : Nat → Str → List RawSam
         if nstk > b2.length / 4 then .err "unrecognized" else
         let (addrs, b3) := readAddrs big w64 nstk b2
         if count == 0 && nstk == 1 && addrs == [0] then .ok (acc.reverse, b3)
-        else cpuSamplesLoop big w64 period f b3 (cpuSample period count addrs :: acc)
+        else cpuSamplesLoop big w64 mk f b3 (mk count addrs :: acc)
 
 /-- the five header words under one decoder: `some (isJava, period, rest)` if they are
 `0 3 0|1 >0 0`. -/
@@ -137,18 +138,19 @@ def cpuHeaderWords (big w64 : Bool) (b : Str) : Option (Bool × Nat × Str) := d
   if n1 == 0 && n2 == 3 && (n3 == 0 || n3 == 1) && n4 > 0 && n5 == 0 then some (n3 == 1, n4, b) else none
 
 def cpuProfile (big w64 : Bool) (period : Nat) (b : Str) : Outcome Profile :=
-  match cpuSamplesLoop big w64 period (b.length + 1) b [] with
+  match cpuSamplesLoop big w64 (cpuSample period) (b.length + 1) b [] with
   | .err e => .err e
   | .panic e => .panic e
   | .ok (ss, rest) => .ok (cpuAssemble period ss (parseProcMaps (splitLines rest)))
 
-/-- `parseCPU`: the decoders are tried in the order 32l, 32b, 64l, 64b. Java CPU profiles
-(third word 1) are outside this model. -/
-def parseCPU (b : Str) : Outcome Profile :=
+/-- `parseCPU`: the decoders are tried in the order 32l, 32b, 64l, 64b.  `java` is
+`javaCPUProfile` (third header word 1), defined in `LegacyJavaCpu` on top of the Java trailer
+machinery; `parseCPU` itself is `parseCPUWith javaCpuProfile` there. -/
+def parseCPUWith (java : Bool → Bool → Nat → Str → Outcome Profile) (b : Str) : Outcome Profile :=
   let try1 (big w64 : Bool) (next : Outcome Profile) : Outcome Profile :=
     match cpuHeaderWords big w64 b with
     | some (false, period, rest) => cpuProfile big w64 period rest
-    | some (true, _, _) => .err "java-cpu-not-modelled"
+    | some (true, period, rest) => java big w64 period rest
     | none => next
   try1 false false (try1 true false (try1 false true (try1 true true (.err "unrecognized"))))
 
